@@ -536,3 +536,307 @@ def fb_type_rule(region, walk, secs):
         if tb <= 2 and val.startswith("unknown"):
             return "framebuffer type byte %d is a known type, got %s" % (tb, val)
     return None
+
+
+# ------------------------------------------------------------------------------------------------ C07
+
+def _tag(typ, payload):
+    return (typ, None, 8 + len(payload), struct.pack("<II", typ, 8 + len(payload)) + payload)
+
+
+def _htag(typ, flags, payload):
+    return (typ, flags, 8 + len(payload), struct.pack("<HHI", typ, flags, 8 + len(payload)) + payload)
+
+
+def _strc(s):
+    return s if s.endswith(b"\0") else s + b"\0"
+
+
+def expected_ctor(name, blob):
+    """Specification encoding of the constructor arguments: (type, flags, size, bytes[..size]) or None = must panic."""
+    b = blob
+    if name == "cmdline":
+        return _tag(1, _strc(b))
+    if name == "loader":
+        return _tag(2, _strc(b))
+    if name == "module":
+        if not le(b, 4, 4) > le(b, 0, 4):
+            return None
+        return _tag(3, b[:8] + _strc(b[8:]))
+    if name == "meminfo":
+        return _tag(4, b[:8])
+    if name == "bootdev":
+        return _tag(5, b[:12])
+    if name == "mmap":
+        n = len(b) // 24
+        return _tag(6, struct.pack("<II", 24, 0) + b"".join(b[24 * i:24 * i + 20] + b"\0\0\0\0" for i in range(n)))
+    if name == "vbe":
+        ci = b[8:42] + b"\0" * (222 + 256)
+        mi = b[520:547] + bytes([b[547] % 8]) + b[548:550] + b"\0" + b[551:570] + b"\0" * 206
+        return _tag(7, b[:8] + ci + mi)
+    if name == "fb":
+        ty = b[21]
+        rest = b[24:]
+        if ty == 0:
+            n = max(0, len(rest) - 2) // 3
+            info = struct.pack("<H", n & 0xFFFF) + rest[2:2 + 3 * n]
+            tb = 0
+        elif ty == 1:
+            info = rest[:6]
+            tb = 1
+        else:
+            info = b""
+            tb = 2
+        return _tag(8, b[:20] + bytes([b[20], tb, 0, 0]) + info)
+    if name == "elf":
+        return _tag(9, b)
+    if name == "apm":
+        return _tag(10, b[:20])
+    if name == "efi32":
+        return _tag(11, b[:4])
+    if name == "efi64":
+        return _tag(12, b[:8])
+    if name == "smbios":
+        return _tag(13, b[:2] + b"\0" * 6 + b[8:])
+    if name == "rsdp1":
+        return _tag(14, b"RSD PTR " + b[8:20])
+    if name == "rsdp2":
+        return _tag(15, b"RSD PTR " + b[8:33] + b"\0\0\0")
+    if name == "network":
+        return _tag(16, b)
+    if name == "efimmap":
+        if le(b, 0, 4) == 0:
+            return None
+        return _tag(17, b)
+    if name == "efidescs":
+        n = len(b) // 40
+        return _tag(17, struct.pack("<II", 40, 1) + b"".join(b[40 * i:40 * i + 4] + b"\0\0\0\0" + b[40 * i + 8:40 * i + 40] for i in range(n)))
+    if name == "efibs":
+        return _tag(18, b"")
+    if name == "ih32":
+        return _tag(19, b[:4])
+    if name == "ih64":
+        return _tag(20, b[:8])
+    if name == "loadbase":
+        return _tag(21, b[:4])
+    if name == "end":
+        return _tag(0, b"")
+    fl = le(b, 0, 2) & 1 if len(b) >= 2 else 0
+    if name == "h_address":
+        return _htag(2, fl, b[2:18])
+    if name == "h_console":
+        return _htag(4, fl, struct.pack("<I", le(b, 2, 4) & 1))
+    if name == "h_end":
+        return _htag(0, 0, b"")
+    if name == "h_entry":
+        return _htag(3, fl, b[2:6])
+    if name == "h_efi32":
+        return _htag(8, fl, b[2:6])
+    if name == "h_efi64":
+        return _htag(9, fl, b[2:6])
+    if name == "h_fb":
+        return _htag(5, fl, b[2:14])
+    if name == "h_modalign":
+        return _htag(6, fl, b"")
+    if name == "h_efibs":
+        return _htag(7, fl, b"")
+    if name == "h_reloc":
+        return _htag(10, fl, b[2:14] + struct.pack("<I", le(b, 14, 4) % 3))
+    if name == "h_inforeq":
+        n = (len(b) - 2) // 4
+        return _htag(1, fl, b[2:2 + 4 * n])
+    raise ValueError(name)
+
+
+def c07_oracle(case, impl):
+    t = case.split()
+    name = t[1]
+    blob = bytes.fromhex(t[2]) if len(t) > 2 and t[2] != "-" else b""
+    exp = expected_ctor(name, blob)
+    if exp is None:
+        return None if impl == "panic" else "the constructor must reject these arguments by a panic, got " + impl[:80]
+    if impl == "panic":
+        return "the constructor panicked on valid arguments"
+    typ, flags, size, image = exp
+    d = dict(x.split("=", 1) for x in impl.split(" ") if "=" in x)
+    if int(d["typ"]) != typ:
+        return "type field %s, the specification says %d" % (d["typ"], typ)
+    if flags is not None and int(d.get("flags", -1)) != flags:
+        return "flags field %s, expected %d" % (d.get("flags"), flags)
+    if int(d["size"]) != size:
+        return "size field %s, the exact unpadded byte count is %d" % (d["size"], size)
+    got = bytes.fromhex(d["bytes"]) if d["bytes"] != "-" else b""
+    if got != image:
+        return "bytes differ from the specification's encoding: got %s expected %s" % (got.hex()[:120], image.hex()[:120])
+    if d["align"] != "8":
+        return "the tag type is only %s-aligned: its byte view is not obtainable at every placement" % d["align"]
+    if not d["asbytes"].startswith("ok:") or int(d["asbytes"][3:]) != r8(size):
+        return "as_bytes() failed or has the wrong length: " + d["asbytes"]
+    return None
+
+
+# ------------------------------------------------------------------------------------------------ C16
+
+def c16_oracle(case, impl):
+    t = case.split()
+    if impl == "panic":
+        return "heap construction / cloning panicked"
+    d = dict(x.split("=", 1) for x in impl.split(" ") if "=" in x)
+    got = bytes.fromhex(d["bytes"]) if d["bytes"] != "-" else b""
+    size = int(d["size"])
+    if t[0] == "BOXED":
+        kind = t[1]
+        hb = bytes.fromhex(t[2])
+        parts = [bytes.fromhex(x) for x in (t[3] if len(t) > 3 else "").split(",") if x and x != "-"]
+        content = b"".join(parts)
+        total = 8 + len(content)
+        if kind == "ht":
+            hb = struct.pack("<HH", le(hb, 0, 2) % 11, le(hb, 2, 2) % 2) + hb[4:]
+        exp = hb[:4] + struct.pack("<I", total) + content
+        if size != total or got != exp:
+            return "expected the header with size %d followed by the content without gaps, got size %d bytes %s" % (total, size, got.hex()[:80])
+        if int(d["pl"]) != len(content):
+            return "payload length %s, content has %d bytes" % (d["pl"], len(content))
+    else:
+        img = bytes.fromhex(t[2])
+        dsize = le(img, 4, 4)
+        if size != dsize or got != img[:dsize]:
+            return "clone differs: declared size %d -> %d, bytes %s -> %s" % (dsize, size, img[:dsize].hex()[:80], got.hex()[:80])
+        total = size
+    want = "%d/8" % r8(total)
+    if d["addr8"] != "0":
+        return "object is not 8-aligned"
+    if d["alloc"] != want:
+        return "allocation %s, expected %s" % (d["alloc"], want)
+    if d["dealloc"] != want:
+        return "freed with layout %s (expected exactly once with %s)" % (d["dealloc"], want)
+    return None
+
+
+# ------------------------------------------------------------------------------------------------ C06 / C12
+
+MBI_MULTI = {"module", "smbios", "custom"}
+
+
+def parse_ops(s):
+    out = []
+    for op in s.split(","):
+        if op and op != "-":
+            n, h = op.split(":")
+            out.append((n, bytes.fromhex(h) if h != "-" else b""))
+    return out
+
+
+def kv(impl):
+    d = {}
+    for part in impl.split(" "):
+        if "=" in part:
+            k, v = part.split("=", 1)
+            d[k] = v
+    return d
+
+
+def c06_oracle(case, impl):
+    t = case.split()
+    ops = parse_ops(t[1] if len(t) > 1 else "-")
+    # arguments the constructors / add_custom_tag must reject
+    for n, b in ops:
+        if n == "custom":
+            if le(b, 0, 4) <= 21:
+                return None if impl == "panic" else "a non-custom type was accepted as custom tag"
+        elif expected_ctor(n, b) is None:
+            return None if impl == "panic" else "invalid constructor arguments were accepted"
+    if impl == "panic":
+        return "the builder panicked on valid calls"
+    d = kv(impl)
+    if d.get("align8") != "0":
+        return "built structure is not 8-aligned"
+    if d.get("load") != "ok":
+        return "the built structure does not load: %s" % d.get("load")
+    if d["len"] != d["total"]:
+        return "declared total size %s differs from the byte length %s" % (d["total"], d["len"])
+    # expected multiset: single slots last call wins, repeatable slots all in call order
+    single = {}
+    multi = {}
+    for n, b in ops:
+        if n == "custom":
+            img = struct.pack("<II", le(b, 0, 4), 8 + len(b) - 4) + b[4:]
+        else:
+            img = expected_ctor(n, b)[3]
+        if n in MBI_MULTI:
+            multi.setdefault(n, []).append(img)
+        else:
+            single[n] = img
+    tl, end = d["tags"].split("|")
+    got = []
+    for ent in tl.split(","):
+        if ent:
+            o, typ, size, hx_ = ent.split(":")
+            got.append((int(o), int(typ), int(size), bytes.fromhex(hx_)))
+    if end != "done":
+        return "the tag walk of the built structure does not end cleanly"
+    if not got or got[-1][1] != 0 or got[-1][2] != 8 or got[-1][3] != struct.pack("<II", 0, 8):
+        return "the last tag is not an end tag"
+    if d.get("last8") != "0000000008000000":
+        return "the final 8 bytes are not the end tag"
+    body = got[:-1]
+    if any(g[1] == 0 for g in body):
+        return "an end tag appears before the end"
+    # every supplied image must occur exactly once (repeatables in order), nothing else
+    exp_imgs = list(single.values())
+    for n in multi:
+        exp_imgs += multi[n]
+    got_imgs = [g[3] for g in body]
+    if sorted(got_imgs) != sorted(exp_imgs):
+        missing = [x.hex()[:40] for x in exp_imgs if x not in got_imgs]
+        extra = [x.hex()[:40] for x in got_imgs if x not in exp_imgs]
+        return "tags of the built structure differ from the supplied ones: missing %s, unexpected %s" % (missing[:3], extra[:3])
+    for n, imgs in multi.items():
+        pos = [got_imgs.index(x) for x in imgs] if len(set(imgs)) == len(imgs) else None
+        if pos is not None and pos != sorted(pos):
+            return "%s tags are not in call order" % n
+    for (o, typ, size, b) in got:
+        if o % 8 != 0:
+            return "tag at %d is not 8-aligned" % o
+    return None
+
+
+def c12_oracle(case, impl):
+    t = case.split()
+    arch = int(t[1])
+    ops = parse_ops(t[2] if len(t) > 2 else "-")
+    if impl == "panic":
+        return "the header builder panicked"
+    d = kv(impl)
+    if d.get("align8") != "0":
+        return "built header is not 8-aligned"
+    hdr = bytes.fromhex(d["hdr"])
+    magic, a, length, ck = struct.unpack("<IIII", hdr)
+    if magic != 0xE85250D6:
+        return "wrong magic %08x" % magic
+    if a != arch:
+        return "architecture %d, chosen %d" % (a, arch)
+    if length != int(d["len"]):
+        return "length field %d, byte length %s" % (length, d["len"])
+    if (magic + a + length + ck) % (1 << 32) != 0:
+        return "checksum is not valid"
+    if d.get("load") != "ok":
+        return "the built header does not load: %s" % d.get("load")
+    single = {}
+    for n, b in ops:
+        single[n] = expected_ctor(n, b)[3]
+    tl, end = d["tags"].split("|")
+    got = []
+    for ent in tl.split(","):
+        if ent:
+            o, size, hx_ = ent.split(":")
+            got.append((int(o), int(size), bytes.fromhex(hx_)))
+    if end != "done":
+        return "the tag walk of the built header does not end cleanly"
+    endimg = struct.pack("<HHI", 0, 0, 8)
+    if not got or got[-1][2] != endimg or d.get("last8") != endimg.hex():
+        return "the header is not terminated by an end tag (type 0, flags 0, size 8)"
+    body = [g[2] for g in got[:-1]]
+    if sorted(body) != sorted(single.values()):
+        return "header tags differ from the supplied ones: got %s expected %s" % ([x.hex()[:32] for x in body][:4], [x.hex()[:32] for x in single.values()][:4])
+    return None
